@@ -525,6 +525,34 @@ def nat_checkpoint_histories(h):
                     'recomputed result equals first run', (ra[:1], rb[:1], rc[:1], rc[1][0] if rc[0] == 'ok' else None))
         finally:
             shutil.rmtree(d, ignore_errors=True)
+    # a checkpoint given its own `steps`, with links in front of it in the flow: the second run equals the first and runs nothing
+    for front in (0, 1, 2):
+        d = tempfile.mkdtemp(prefix='c07s_')
+        try:
+            ran = []
+
+            def mark_a(row):
+                ran.append('a')
+
+            def mark_b(row):
+                ran.append('b')
+
+            def mk():
+                links = []
+                if front >= 1:
+                    links += [[{'o': i} for i in range(3)], mark_a]
+                if front >= 2:
+                    links += [[{'p': 1}]]
+                return Flow(*links, checkpoint('x', checkpoint_path=d, steps=[[{'r': 1.5}, {'r': 2.5}], mark_b]))
+            r1 = h.run(lambda: mk().results())
+            n1 = len(ran)
+            r2 = h.run(lambda: mk().results())
+            ok = r1[0] == 'ok' and r2[0] == 'ok' and r1[1][0] == r2[1][0] and len(ran) == n1 and \
+                [x['name'] for x in r1[1][1].descriptor['resources']] == [x['name'] for x in r2[1][1].descriptor['resources']]
+            h.check(ok, 'dataflows/processors/checkpoint.py::checkpoint', ('checkpoint with steps=, links in front', front), r1[1][0] if r1[0] == 'ok' else r1[:2],
+                    (r2[1][0] if r2[0] == 'ok' else r2[:2], n1, len(ran)))
+        finally:
+            shutil.rmtree(d, ignore_errors=True)
 
 
 from contracts.common import lazy_sym, lazy_nat   # noqa: E402
